@@ -52,9 +52,6 @@ Properties/C15.vos Properties/C15.vok Properties/C15.required_vos: Properties/C1
 Properties/C16.vo Properties/C16.glob Properties/C16.v.beautified Properties/C16.required_vo: Properties/C16.v Compiler/Compile.vo Proofs/SrcMapProofs.vo
 Properties/C16.vio: Properties/C16.v Compiler/Compile.vio Proofs/SrcMapProofs.vio
 Properties/C16.vos Properties/C16.vok Properties/C16.required_vos: Properties/C16.v Compiler/Compile.vos Proofs/SrcMapProofs.vos
-Properties/C07.vo Properties/C07.glob Properties/C07.v.beautified Properties/C07.required_vo: Properties/C07.v Compiler/Compile.vo
-Properties/C07.vio: Properties/C07.v Compiler/Compile.vio
-Properties/C07.vos Properties/C07.vok Properties/C07.required_vos: Properties/C07.v Compiler/Compile.vos
 Properties/C10.vo Properties/C10.glob Properties/C10.v.beautified Properties/C10.required_vo: Properties/C10.v Compiler/Compile.vo
 Properties/C10.vio: Properties/C10.v Compiler/Compile.vio
 Properties/C10.vos Properties/C10.vok Properties/C10.required_vos: Properties/C10.v Compiler/Compile.vos
@@ -145,3 +142,12 @@ Proofs/NukeProofs.vos Proofs/NukeProofs.vok Proofs/NukeProofs.required_vos: Proo
 Proofs/SrcMapProofs.vo Proofs/SrcMapProofs.glob Proofs/SrcMapProofs.v.beautified Proofs/SrcMapProofs.required_vo: Proofs/SrcMapProofs.v Compiler/SrcMap.vo
 Proofs/SrcMapProofs.vio: Proofs/SrcMapProofs.v Compiler/SrcMap.vio
 Proofs/SrcMapProofs.vos Proofs/SrcMapProofs.vok Proofs/SrcMapProofs.required_vos: Proofs/SrcMapProofs.v Compiler/SrcMap.vos
+Proofs/EmitInv.vo Proofs/EmitInv.glob Proofs/EmitInv.v.beautified Proofs/EmitInv.required_vo: Proofs/EmitInv.v Compiler/Emit.vo Proofs/EmitProofs.vo
+Proofs/EmitInv.vio: Proofs/EmitInv.v Compiler/Emit.vio Proofs/EmitProofs.vio
+Proofs/EmitInv.vos Proofs/EmitInv.vok Proofs/EmitInv.required_vos: Proofs/EmitInv.v Compiler/Emit.vos Proofs/EmitProofs.vos
+Proofs/TargetProofs.vo Proofs/TargetProofs.glob Proofs/TargetProofs.v.beautified Proofs/TargetProofs.required_vo: Proofs/TargetProofs.v Compiler/Emit.vo Proofs/EmitProofs.vo Proofs/EmitInv.vo Compiler/SrcMap.vo Proofs/SrcMapProofs.vo
+Proofs/TargetProofs.vio: Proofs/TargetProofs.v Compiler/Emit.vio Proofs/EmitProofs.vio Proofs/EmitInv.vio Compiler/SrcMap.vio Proofs/SrcMapProofs.vio
+Proofs/TargetProofs.vos Proofs/TargetProofs.vok Proofs/TargetProofs.required_vos: Proofs/TargetProofs.v Compiler/Emit.vos Proofs/EmitProofs.vos Proofs/EmitInv.vos Compiler/SrcMap.vos Proofs/SrcMapProofs.vos
+Properties/C07.vo Properties/C07.glob Properties/C07.v.beautified Properties/C07.required_vo: Properties/C07.v Compiler/Compile.vo Proofs/EmitProofs.vo Proofs/TargetProofs.vo Proofs/SrcMapProofs.vo
+Properties/C07.vio: Properties/C07.v Compiler/Compile.vio Proofs/EmitProofs.vio Proofs/TargetProofs.vio Proofs/SrcMapProofs.vio
+Properties/C07.vos Properties/C07.vok Properties/C07.required_vos: Properties/C07.v Compiler/Compile.vos Proofs/EmitProofs.vos Proofs/TargetProofs.vos Proofs/SrcMapProofs.vos
